@@ -216,3 +216,36 @@ Theorem C11_expired_nonce_is_stale :
     gate Ht Hh Ho Unq (Some d) e = Deny401 true.
 Proof. exact expired_nonce_is_stale. Qed.
 Print Assumptions C11_expired_nonce_is_stale.
+
+(* ---- translator tie: check_response and check_credentials of the model are
+   equal to the definitions generated from the current poorwsgi/digest.py by
+   harness/py2v_digest.py (gen/DigestGen.v is rewritten on every check run),
+   over the Python semantics of lib/Py.v + lib/PyDigest.v -- for every
+   authorization dictionary [d] (any fields present or missing), every
+   configuration and request [e].  Domain: field values, method, path, query,
+   host name, algorithm, realm, map entries and the password are str;
+   app.auth_qop is a str or None ([qop_ok]; the model's [] stands for both);
+   username is a str or None ([inj_user]).  A Python KeyError is
+   [Err (Raised "KeyError" (PStr k))] = [CRKeyError k] ([inj_cr]).  The
+   request attributes check_response does not read are arbitrary values. *)
+Require Import PW.lib.Py PW.lib.PyDigest PW.gen.DigestGen PW.proofs.DigestGenEq.
+
+Theorem C11_generated_check_response_is_model :
+  forall Hh d e qv pw vpath vquery vhost vmap,
+    qop_ok qv (c_qop e) ->
+    gen_check_response Hh (inj_dict d) (PStr (r_method e)) vpath vquery vhost
+                       (PStr (c_algorithm e)) qv vmap (PStr pw)
+    = inj_cr (check_response Hh d e pw).
+Proof. exact gen_check_response_eq. Qed.
+Print Assumptions C11_generated_check_response_is_model.
+
+Theorem C11_generated_check_credentials_is_model :
+  forall Hh Ho Unq d e qv,
+    qop_ok qv (c_qop e) ->
+    gen_check_credentials Hh Ho Unq (inj_dict d) (PStr (r_method e))
+      (PStr (req_path e)) (PStr (req_query e)) (PStr (r_host e))
+      (PStr (c_algorithm e)) qv (inj_map (c_map e))
+      (PStr (c_realm e)) (inj_user (c_user e))
+    = Ok (PBool (check_credentials Hh Ho Unq d e)).
+Proof. exact gen_check_credentials_eq. Qed.
+Print Assumptions C11_generated_check_credentials_is_model.
